@@ -105,7 +105,7 @@ CHECKS = {
  'C26': (['asan'], 'event-log monitor vs dense Gaussian-rational arithmetic: the tree returned by matrix_add / matrix_mul / hadamard_product / transpose / conjugate_matrix / trace is evaluated by an independent tree evaluator and compared entry by entry with the dense evaluation of the recipe; size and every definite predicate answer compared with the concrete matrix (for expressions with a MatrixSymbol: with three instances of the symbol); run with assertions recording but not throwing (release semantics) under ASan',
          'Expression trees of depth <= 3 over dense (random / symmetric / triangular / Toeplitz / diagonal-shaped), diagonal, identity and zero leaves of size 1-3 x 1-3 with rational and Gaussian-rational entries; chains of 2-3 factors with all compatible inner sizes.',
          'diagonal / lower / upper of non-square matrices are a convention and not judged; indeterminate is never a violation.', 'DESIGN.md 3/C26'),
- 'C19': (['asan'], 'event-log monitor: loads(dumps(e)) executed by the real library; complete tree dump (doubles as bit patterns, sums/products order-normalised), hash, string, eq in both directions and the object-sharing census compared before/after',
+ 'C19': (['asan', 'rel'], 'event-log monitor: loads(dumps(e)) executed by the real library; complete tree dump (doubles as bit patterns, sums/products order-normalised), hash, string, eq in both directions and the object-sharing census compared before/after',
          'Expressions of depth <= 4 over every serialisable node class (all number kinds incl. signed zeros, subnormals, inf, nan; awkward symbol names; 53 function classes; Derivative, Subs, Piecewise, relationals, logic, Contains, all set classes; Dummy; deliberately shared sub-objects).',
          'Types that decline serialisation (exception) are counted.', 'DESIGN.md 3/C19'),
  'C20': (['asan'], 'sanitizer monitor (ASan+UBSan, assertions recording but not throwing) over mutated dumps: every mutant is loaded and the returned object printed, hashed, compared, evaluated, expanded and re-serialised; oracle = sanitizer report / signal / abort / confirmed hang',
